@@ -28,7 +28,15 @@ pub enum ParseFail {
 pub struct Parsed {
     pub items: Vec<MQuad>,
     pub result: Result<(), ParseFail>,
+    /// what the source yielded when it was polled again AFTER it had reported its end or an
+    /// error (a consumer is free to do so: `try_for_some_*` answers Ok(false) at the end). Kept
+    /// apart from `items`: Rio parsers resume after a syntax error, so these are not part of
+    /// the prefix oracles; they must be valid terms, and polling must not panic.
+    pub after_end: Vec<MQuad>,
 }
+
+/// how many extra polls a finished / failed source receives
+const EXTRA_POLLS: usize = 3;
 
 pub trait Format: Sync {
     fn name(&self) -> String;
@@ -122,13 +130,34 @@ fn triple_src<'a>(
     sq.iter().map(|q| Ok([&q.0[0], &q.0[1], &q.0[2]]))
 }
 
-pub fn collect_quads<S: QuadSource>(mut s: S) -> Parsed {
+pub fn collect_quads<S: QuadSource>(s: S) -> Parsed {
+    collect_quads_with(s, false)
+}
+
+/// `repoll_after_error`: also poll again after the source reported an ERROR. Only asked of
+/// sources whose state machine is sophia's own (the JSON-LD source). A Rio-backed source polled
+/// after a syntax error resumes the third-party parser's error recovery, which is outside what
+/// this check claims (see DESIGN.md §11.9).
+pub fn collect_quads_with<S: QuadSource>(mut s: S, repoll_after_error: bool) -> Parsed {
     let mut items = vec![];
     let r = s.try_for_each_quad(|q| -> Result<(), Infallible> {
         items.push(quad_from(q));
         Ok(())
     });
+    let mut after_end = vec![];
+    for _ in 0..(if r.is_ok() || repoll_after_error { EXTRA_POLLS } else { 0 }) {
+        let more = s.try_for_some_quad(|q| -> Result<(), Infallible> {
+            if after_end.len() < 64 {
+                after_end.push(quad_from(q));
+            }
+            Ok(())
+        });
+        if matches!(more, Ok(false)) {
+            break;
+        }
+    }
     Parsed {
+        after_end,
         items,
         result: match r {
             Ok(()) => Ok(()),
@@ -144,7 +173,20 @@ pub fn collect_triples<S: TripleSource>(mut s: S) -> Parsed {
         items.push((triple_from(t), None));
         Ok(())
     });
+    let mut after_end = vec![];
+    for _ in 0..(if r.is_ok() { EXTRA_POLLS } else { 0 }) {
+        let more = s.try_for_some_triple(|t| -> Result<(), Infallible> {
+            if after_end.len() < 64 {
+                after_end.push((triple_from(t), None));
+            }
+            Ok(())
+        });
+        if matches!(more, Ok(false)) {
+            break;
+        }
+    }
     Parsed {
+        after_end,
         items,
         result: match r {
             Ok(()) => Ok(()),
